@@ -3,7 +3,7 @@ import XeofsModel.Generated.Formulas
 /-! Executable model of `OPA._fit_algorithm` after the PCA step (real data only, as the source asserts): lagged covariances
 `_Ctau` with the generated denominator, the trapezoidal lag sum with the generated weights, the matrix handed to the symmetric
 eigen-solver, filter patterns, optimally persistent patterns, their time series and norms. ORACLES: the inverse `Cinv` of
-`C0_sqrt = U sqrt(s)` (from the decomposition of `C0`) and the descending eigen-pairs `(Ue, lam)` of the target matrix. -/
+`C0_sqrt = U sqrt(s)` (so `Cinv C0 Cinvᵀ = 1`) (from the decomposition of `C0`) and the descending eigen-pairs `(Ue, lam)` of the target matrix. -/
 namespace XM
 open Mat
 variable {ρ α : Type} [Num ρ] [Entry ρ α] {n p q k : Nat}
@@ -28,9 +28,10 @@ def opaM (S : Mat n q α) (tauMax : Nat) : Mat q q α :=
 /-- transpose without conjugation (`M.data.T`) -/
 def transposeM {a b : Nat} (A : Mat a b α) : Mat b a α := ofFn fun i j => A.get j i
 
-/-- the matrix handed to `eigh`: `0.5 * Cinv @ (M + M.T) @ Cinv` (as the source contracts the dimensions) -/
+/-- the matrix handed to `eigh`: `0.5 * Cinv @ (M + M.T) @ Cinv.T` (as the source contracts the dimensions: the second factor over
+its FEATURE index) -/
 def opaTarget (Cinv : Mat q q α) (M : Mat q q α) : Mat q q α :=
-  (((Cinv.mul (M.add (transposeM M))).mul Cinv)).scaleCols fun _ => Entry.ofReal (Num.ofNat 1 / Num.ofNat 2 : ρ)
+  (((Cinv.mul (M.add (transposeM M))).mul (transposeM Cinv))).scaleCols fun _ => Entry.ofReal (Num.ofNat 1 / Num.ofNat 2 : ρ)
 
 structure OpaFit (n p q k : Nat) (ρ α : Type) where
   target : Mat q q α
@@ -43,7 +44,7 @@ structure OpaFit (n p q k : Nat) (ρ α : Type) where
 
 def opaFit (S : Mat n q α) (C : Mat p q α) (tauMax : Nat) (Cinv : Mat q q α) (Ue : Mat q k α) (lam : Fin k → ρ) :
     OpaFit n p q k ρ α :=
-  let V := Cinv.mul Ue
+  let V := (transposeM Cinv).mul Ue   -- `C0_sqrt_inv.T @ U`: contraction over the mode index of the inverse square root
   let W := (lagCov (ρ := ρ) S 0).mul V
   let P := S.mul V
   { target := opaTarget (ρ := ρ) Cinv (opaM (ρ := ρ) S tauMax)
